@@ -33,7 +33,7 @@ Fixpoint xotify_content (c : fcontent) (st : xstate) : option (xstate * list N) 
       let '(st1, n) := new_node st (VComment s) in
       match xotify_content r st1 with Some (st2, l) => Some (st2, n :: l) | None => None end
   | FCPI t d r =>
-      let '(st1, n) := new_node st (VPI t d) in
+      let '(st1, n) := new_node st (VPI t (match d with Some [] => None | x => x end)) in
       match xotify_content r st1 with Some (st2, l) => Some (st2, n :: l) | None => None end
   | FCElem name ps attrs kids r =>
       (* Element::xotify: new_element, namespaces_mut().insert, attributes_mut().insert, children, appends *)
@@ -66,7 +66,7 @@ Fixpoint insert_all_before (st : xstate) (ref : N) (c : fcontent) : option xstat
       let '(st1, n) := new_node st (VComment s) in
       match m_insert_before st1 ref n with (st2, MDone _) => insert_all_before st2 ref r | _ => None end
   | FCPI t d r =>
-      let '(st1, n) := new_node st (VPI t d) in
+      let '(st1, n) := new_node st (VPI t (match d with Some [] => None | x => x end)) in
       match m_insert_before st1 ref n with (st2, MDone _) => insert_all_before st2 ref r | _ => None end
   | _ => None
   end.
@@ -78,7 +78,7 @@ Fixpoint append_all_new (st : xstate) (parent : N) (c : fcontent) : option xstat
       let '(st1, n) := new_node st (VComment s) in
       match m_append st1 parent n with (st2, MDone _) => append_all_new st2 parent r | _ => None end
   | FCPI t d r =>
-      let '(st1, n) := new_node st (VPI t d) in
+      let '(st1, n) := new_node st (VPI t (match d with Some [] => None | x => x end)) in
       match m_append st1 parent n with (st2, MDone _) => append_all_new st2 parent r | _ => None end
   | _ => None
   end.
